@@ -268,9 +268,9 @@ def gen_cases(rng, tier):
     mult = {"quick": 1, "thorough": 8, "search": 2}[tier]
     plan = [("loc", "biweight_location", 300, 60), ("loc", "modal_location", 150, 120), ("loc", "weighted_median", 1200, 400),
             ("scale", "mad", 250, 400), ("scale", "iqr", 250, 400), ("scale", "gapper", 250, 400), ("scale", "qn", 120, 40),
-            ("scale", "bivar", 150, 30), ("scale", "wmad", 500, 400), ("scale", "wstd", 250, 400),
+            ("scale", "bivar", 120, 24), ("scale", "wmad", 500, 400), ("scale", "wstd", 250, 400),
             ("smooth", "rolling_median", 350, 400), ("smooth", "kaiser", 250, 400), ("smooth", "savgol", 250, 400),
-            ("smooth", "savgol_w", 250, 400)]
+            ("smooth", "savgol_w", 200, 200)]
     cases = []
     for op, name, cnt, nmax in plan:
         for _ in range(cnt * mult):
